@@ -172,7 +172,7 @@ class FormulaParser(Parser):
             else:
                 p[0] = p[1] + [None]
         elif p[2] == ';':
-            if p[3] == ';':
+            if len(p) == 5:  # expseqsemicolon SEMICOLON SEMICOLON expression (not: an expression whose value is ';')
                 p[0] = p[1] + [None, p[4]]
             else:
                 if str(p.slice[1]) in ('expseqcomma', 'expseqbackslash'):
@@ -200,7 +200,7 @@ class FormulaParser(Parser):
                 p[0] = p[1] + [None]
         elif p[2] == ',':
             # expseqcomma COMMA COMMA expression
-            if p[3] == ',':  # e.g. an empty function argument
+            if len(p) == 5:  # e.g. an empty function argument (not: an argument whose value is ',')
                 p[0] = p[1] + [None, p[4]]
             else:
                 p[0] = p[1] + [p[3]]
@@ -224,7 +224,7 @@ class FormulaParser(Parser):
             else:
                 p[0] = p[1] + [None]
         elif p[2] == '\\':
-            if p[3] == '\\':
+            if len(p) == 5:  # expseqbackslash BACKSLASH BACKSLASH expression (not: an expression whose value is '\\')
                 p[0] = p[1] + [None, p[4]]
             else:
                 p[0] = p[1] + [p[3]]
